@@ -7,8 +7,8 @@ CONSTANTS
   Prod = {p1, p2}
   Cons = {c1, c2}
   Cap = 2
-  NSend = 2
-  NRecv = 2
+  NSend <- S22
+  NRecv <- R22
   TwoStep = TRUE
   PhotonSend = FALSE
   Timed = TRUE
